@@ -46,11 +46,6 @@ variable {K V VOp A : Type} [LinOrd K] [LinOrd A]
 /-- the Orswot of keys inside a Map -/
 def keysView (m : CMap K V A) : Orswot K A := ⟨m.clock, m.entries.mapVal (·.clock), m.deferred⟩
 
-/-- the key-level reading of a Map op -/
-def keyOp : MapOp K VOp A → OrswotOp K A
-  | .rm c ks => .rm c ks
-  | .up d k _ => .add d [k]
-
 @[simp] theorem keysView_clock (m : CMap K V A) : m.keysView.clock = m.clock := rfl
 @[simp] theorem keysView_deferred (m : CMap K V A) : m.keysView.deferred = m.deferred := rfl
 
